@@ -525,7 +525,7 @@ func (fr *Frame) instr(in ssa.Instruction) bool {
 		name := elemComp(c, st.Elem())
 		es := c.sortOf(st.Elem())
 		comp := c.comp(fr.st, name, "(Array Ref (Array Int "+es+"))")
-		c.setComp(fr.st, name, "(store "+comp+" "+r+" ((as const (Array Int "+es+")) "+c.zero(st.Elem())+"))")
+		c.setComp(fr.st, name, "(store "+comp+" "+r+" "+c.constArray("Int", es, c.zero(st.Elem()))+")")
 		fr.define(x, "(mk_slice "+r+" 0 "+ln+" "+cp+")")
 	case *ssa.MakeChan:
 		fr.vals[x] = fr.allocRef(x.Name())
